@@ -23,7 +23,7 @@ for pid in props:
 na = [{'property_id': p, 'reason': NOT_APPLICABLE[p]} for p in props if p not in CHECKS]
 m = {
     'version': 1,
-    'setup_cmd': 'cd /verif/coq && coq_makefile -f _CoqProject -o Makefile && timeout 3000 make -j16',
+    'setup_cmd': '/verif/lib/setup.sh',
     'hooks': {'guard': 'PSIAUDIO_VERIF', 'enable': 'none needed: no check requires instrumentation inside psiaudio',
               'baseline_off_cmd': '/verif/lib/run_baseline.sh /repo', 'source_commits': [], 'add_only': True},
     'engines': [{'name': 'coq', 'path': '/verif/coq', 'serves_properties': [c['property_id'] for c in checks],
